@@ -5,6 +5,8 @@ Every generated program is run once without fault and then once per loop iterati
 
 from __future__ import annotations
 
+import asyncio
+
 from hv import conc
 from hv import progs as P
 from hv.core import Outcome
@@ -20,6 +22,7 @@ RULE = (
     "(exception, cancellation, failed disposable or failed spawned task) while an enclosing block supplies different "
     "state; distinct = distinct program"
 )
+RULE += '; template: a spawned task fails early and the body fails differently a few steps later'
 LEVEL_TEXT = (
     "Exhaustive single-fault injection per generated program: around every block the harness takes a side-effect-free "
     "context fingerprint (state per family type by identity, metrics scope, task group) before entering and in a "
@@ -98,11 +101,13 @@ def judge(prog, run, res, out: Outcome, inject):
                     for e in run.log
                 ):
                     # a task spawned inside this block - or into the group of a scope ENCLOSING it - failed before the
-                    # block was left: the task group cancels the owner, and that cancellation lands wherever the owner
-                    # currently is, possibly in this block's cleanup (what a failed spawned task does to its owner is
-                    # not judged)
-                    out.unspecified.append("body-exception-while-spawned-task-fails")
-                    break
+                    # block was left: the task group cancels the owner, and that CANCELLATION lands wherever the owner
+                    # currently is, possibly in this block's cleanup, where it replaces the body's exception (what a
+                    # failed spawned task does to its owner is not judged). Anything else than a cancellation in place
+                    # of the body's exception - e.g. the spawned task's own exception - is not excused by this.
+                    if ex["exc"] is r["exc"] or isinstance(ex["exc"], asyncio.CancelledError):
+                        out.unspecified.append("body-exception-while-spawned-task-fails")
+                        break
                 if ex["exc"] is not r["exc"]:
                     out.violate(
                         "identity",
